@@ -20,10 +20,13 @@ RECURSIVE HasRefs(_)
 HasRefs(n) == \E x \in Nodes(n) : x.cls \in {"HplThisMessage", "HplVarReference"}
 EmptyRho == [this |-> <<"msg", [a \in {} |-> 0]>>, vars |-> [a \in {} |-> 0]]
 MayRaise(in, rhos) ==
-  \E x \in Nodes(in) :
-     \/ (IsExpr(x) /\ ~HasRefs(x) /\ Eval(x, EmptyRho, TRUE)[1] \in {"U", "O"})
-     \/ (x.cls = "HplBinaryOperator" /\ x.operator = "/"
-           /\ \A i \in 1..Len(rhos) : LET d == Eval(x.operand2, rhos[i], FALSE) IN d[1] # "n" \/ d[2] = 0)
+  \/ \E x \in Nodes(in) :
+        \/ (IsExpr(x) /\ ~HasRefs(x) /\ Eval(x, EmptyRho, TRUE)[1] \in {"U", "O", "R"})
+        \/ (x.cls = "HplBinaryOperator" /\ x.operator = "/"
+              /\ \A i \in 1..Len(rhos) : LET d == Eval(x.operand2, rhos[i], FALSE) IN d[1] # "n" \/ d[2] = 0)
+  \* the input evaluates without error under NO valuation of the grid (e.g. sqrt(0 - xs[0] ** 0)): the statement
+  \* puts no obligation on such an input, and folding its constant core is what exposes the undefined constant
+  \/ (Len(rhos) > 0 /\ \A i \in 1..Len(rhos) : Eval(in, rhos[i], TRUE)[1] \in {"U", "O", "R"})
 
 SimplifyVerdict(e, js) ==
   IF e.out # "ok" THEN
